@@ -141,3 +141,9 @@ Proof.
   - rewrite linsert_length by exact Hi. lia.
 Qed.
 Print Assumptions C16_emplace_position_keeps_the_elements_in_front.
+
+(* erase(first, first) - the empty range, anywhere - does nothing at all: no event (no
+   construction, destruction or allocator call), the very same vector (every list) *)
+Theorem C16_erase_of_an_empty_range_does_nothing : forall L v i, erase_range L v i i = (v, []).
+Proof. exact erase_empty_range_identity. Qed.
+Print Assumptions C16_erase_of_an_empty_range_does_nothing.
